@@ -37,3 +37,22 @@ for v in ck.violations:
         if 'after' in rep:
             v['replayed'] = (rep['after']['commit_index'] != rep['before']['commit_index'] or
                              rep['replication_after'] != rep['replication_before'])
+    elif v['obligation'] in ('L1_commit_rule', 'L1_commit_rule_via_response'):
+        peers = w.get('peers') or [f'p{i}' for i in range(len(w['match_index']))]
+        rep = Replay.call({'op': 'raft_leader_commit', 'pre': w['pre'], 'peers': peers, 'match_index': w['match_index'], 'aer': w.get('aer')})
+        v['native'] = rep
+        bad = False
+        term = w['pre']['term']
+        lt = w['pre']['log_terms']
+        prev = 0
+        for stp in rep.get('steps', []):
+            c = stp['commit_index']
+            if c < prev:
+                bad = True
+            if c > prev:
+                have = 1 + sum(1 for r_ in stp['replication'] if r_ is not None and r_[1] >= c)
+                need = (len(peers) + 1) // 2 + 1
+                if c > len(lt) or lt[c - 1] != term or have < need:
+                    bad = True
+            prev = c
+        v['replayed'] = bad
